@@ -141,19 +141,36 @@ def guardInfo (cmds : List Cmd) : Nat × Nat :=
       | _ => go rest G acc
   go cmds [] (0, 0)
 
+/-- every search command with its amount replaced by `all` -/
+def allAmounts : List BCmd → List BCmd
+  | [] => []
+  | .find _ code :: rest => .find ⟨true, 0, 0, 0⟩ code :: allAmounts rest
+  | .replace _ code rep :: rest => .replace ⟨true, 0, 0, 0⟩ code rep :: allAmounts rest
+  | c :: rest => c :: allAmounts rest
+
+/-- the specification is evaluated (continuation-passing: its native stack grows with the number of
+search steps) only where the VM model, which follows the same search order, finishes the whole scan of
+every command within the step budget; otherwise the case is inconclusive for `spec=` / `spec2=` -/
+def specAffordable (text : Bytes) (bc : List BCmd) : Bool :=
+  match runProgram procFuel vmFuel "text".toUTF8.toList text (allAmounts bc) with
+  | some (.ok _) => true
+  | _ => false
+
 /-- property predicates evaluated on the implementation's result (4th field) -/
-def predsOn (cmds : List Cmd) (lens : List Nat) (text : Bytes) (impl : String) : String :=
+def predsOn (cmds : List Cmd) (bc : List BCmd) (lens : List Nat) (text : Bytes) (impl : String) : String :=
   match parseMatches impl with
   | none => "PRED na"
   | some ms =>
     if lens.foldl (· + ·) 0 != ms.length then "PRED na" else
     let groups := cutBy lens ms
     let gs := genStates cmds {}
-    let sp := specOk text gs groups
+    let afford := specAffordable text bc
+    let sp := if afford then specOk text gs groups else (0, true)
     "PRED faithful=" ++ boolStr (groups.all (Spec.faithful text)) ++
       " replacement=" ++ boolStr (replacementsOk procFuel "text".toUTF8.toList gs groups) ++
       (if sp.1 == 0 then "" else " spec=" ++ boolStr sp.2) ++
-      (let s2 := spec2Ok text cmds groups; if s2.1 == 0 then "" else " spec2=" ++ boolStr s2.2)
+      (let s2 := if afford then spec2Ok text cmds groups else (0, true); if s2.1 == 0 then "" else " spec2=" ++ boolStr s2.2) ++
+      (if afford then "" else " specskipped=T")
 
 def handleRun (fields : List String) : String :=
   match fields with
@@ -164,7 +181,7 @@ def handleRun (fields : List String) : String :=
       | .error _ => "CODE GENERR\tRES GENERR"
       | .ok bc =>
         let pred := match rest with
-          | impl :: _ => "\t" ++ predsOn cmds (groupLens t bc) t impl
+          | impl :: _ => "\t" ++ predsOn cmds bc (groupLens t bc) t impl
           | [] => ""
         let code2 := match twoPass cmds bc with
           | some bc2 => "\tCODE2 " ++ bytecodeStr bc2
@@ -191,13 +208,13 @@ def handleRunMany (fields : List String) : String :=
         let gs := genStates cmds {}
         let results := ts.map (fun t => resStr (runProgram procFuel vmFuel "text".toUTF8.toList t bc))
         let specFails := (ts.zip impls).filterMap (fun (ti : Bytes × String) =>
-          match parseMatches ti.2 with
+          match (if specAffordable ti.1 bc then parseMatches ti.2 else none) with
           | some ms =>
             let sp := specOk ti.1 gs [ms]
             if sp.1 == 1 && !sp.2 then some (hex ti.1) else none
           | none => none)
         let nspec := (ts.zip impls).foldl (fun n (ti : Bytes × String) =>
-          match parseMatches ti.2 with
+          match (if specAffordable ti.1 bc then parseMatches ti.2 else none) with
           | some ms => n + (specOk ti.1 gs [ms]).1
           | none => n) 0
         "RES " ++ "|".intercalate results ++ "\tSPEC " ++
